@@ -146,6 +146,20 @@ def pcheck(ctx, hist, batch):
             viol('single-step', 'reference: state %s announcements %s'
                                 % (r_state, r_ann))
 
+    # a batch is its notifications one after the other: those for unknown
+    # pilots are ignored, none for the known pilot is lost
+    if len(batch) > 1 and before not in FINAL:
+        r_state, r_ann = before, list()
+        for pid, s in batch:
+            if pid == 'p1':
+                r_state, more = ref_single(r_state, s)
+                r_ann += more
+        dedup = [x for i, x in enumerate(ann)
+                 if x != ([before] + ann)[i]]       # repeats may be announced
+        if (after, dedup) != (r_state, r_ann):
+            viol('batch-as-sequence', 'reference (one notification after the '
+                 'other): state %s announcements %s' % (r_state, r_ann))
+
     ctx.outcome((before, tuple(batch), after, tuple(ann)))
     return after
 
